@@ -134,6 +134,10 @@ def get_type_graph(t: type) -> graphlib.TopologicalSorter[TypeNode]:
             # If no type was provided, there's no reason to do further processing.
             if child in (constants.empty, typing.Any):
                 continue
+            # The hint of a field may arrive as a reference (a string annotation taken
+            #   from the signature of the class): it names a type like any other hint.
+            if var is not None and type(child) is typing.ForwardRef:
+                child = _evaluated(child)
 
             unwrapped = inspection.unwrap(child)
             # Only non-stdlib types can be cyclic.
@@ -223,6 +227,14 @@ class TypeNode:
         # `None` is a valid unwrapped type (e.g., an alias or NewType of `None`).
         if self.unwrapped is constants.empty:
             self.unwrapped = self.type
+
+
+def _evaluated(ref: typing.ForwardRef) -> typing.Any:
+    try:
+        return refs.evaluate(ref)
+    # A name the module of the reference cannot see (e.g., a local class).
+    except (NameError, AttributeError, TypeError, SyntaxError):
+        return ref
 
 
 def _level(t: typing.Any) -> typing.Iterable[tuple[str | None, type]]:
